@@ -217,3 +217,39 @@ impl Val for Tok4 {
     fn same_value(&self, s: TokSeed) -> bool { self.val == s.val as u32 }
 }
 
+
+
+// ---------------------------------------------------------------------------------------------
+// serde glue for the C15 harnesses (see tokfmt.rs)
+use crate::tokfmt::Token;
+
+/// the token a value made from `seed` must be encoded as
+pub trait TokVal: Val {
+    fn token(s: Self::Seed) -> Token;
+    /// some well-formed encoding of a value of this type (symbolic payload)
+    fn any_token() -> Token;
+}
+impl TokVal for u8 { fn token(s: u8) -> Token { Token::U8(s) } fn any_token() -> Token { Token::U8(nd::<u8>()) } }
+impl TokVal for u16 { fn token(s: u16) -> Token { Token::U16(s) } fn any_token() -> Token { Token::U16(nd::<u16>()) } }
+impl TokVal for u32 { fn token(s: u32) -> Token { Token::U32(s) } fn any_token() -> Token { Token::U32(nd::<u32>()) } }
+impl TokVal for u64 { fn token(s: u64) -> Token { Token::U64(s) } fn any_token() -> Token { Token::U64(nd::<u64>()) } }
+impl TokVal for Tok { fn token(s: TokSeed) -> Token { Token::U8(s.val) } fn any_token() -> Token { Token::U8(nd::<u8>()) } }
+
+impl serde::Serialize for Tok {
+    fn serialize<S: serde::Serializer>(&self, serializer: S) -> Result<S::Ok, S::Error> {
+        serializer.serialize_u8(self.val)
+    }
+}
+struct TokVisitor;
+impl<'de> serde::de::Visitor<'de> for TokVisitor {
+    type Value = Tok;
+    fn expecting(&self, _f: &mut std::fmt::Formatter) -> std::fmt::Result { Ok(()) }
+    fn visit_u8<E: serde::de::Error>(self, v: u8) -> Result<Tok, E> {
+        Ok(Tok { id: fresh_id(), val: v })
+    }
+}
+impl<'de> serde::Deserialize<'de> for Tok {
+    fn deserialize<D: serde::Deserializer<'de>>(deserializer: D) -> Result<Tok, D::Error> {
+        deserializer.deserialize_u8(TokVisitor)
+    }
+}
